@@ -129,6 +129,22 @@ void vf_corpus_init(void) {
                                      {"%llu nested maps around an empty array", "%llu nested maps around an empty map"}, {"%llu nested indefinite arrays around []", "%llu nested indefinite arrays around {}"}};
       finish(NM[kind][inner], depth, 0);
     }
+  /* declared counts whose storage size is exactly 2^64 bytes (8 * 2^61, 16 * 2^60) and their neighbours: not allocatable, to be refused at the head */
+  {
+    static const uint64_t CNT4[] = {(1ull << 61) - 1, 1ull << 61, (1ull << 61) + 1, 1ull << 62, 1ull << 63};
+    static const uint64_t CNT5[] = {(1ull << 60) - 1, 1ull << 60, (1ull << 60) + 1, 1ull << 61, 1ull << 63};
+    for (unsigned i = 0; i < 5; i++) {
+      head(4, CNT4[i]);
+      put(0x00);
+      put(0x01);
+      finish("array head declaring %llu entries, two present", CNT4[i], 0);
+      put(0xc1);
+      head(5, CNT5[i]);
+      put(0x00);
+      put(0x01);
+      finish("tagged map head declaring %llu pairs, one present", CNT5[i], 0);
+    }
+  }
   head(6, 0xffffffffffffffffull);
   head(6, 0x100000000ull);
   head(6, 65536);
